@@ -28,8 +28,9 @@ Inductive next :=
 Record rr := mkRR { rr_out : list M; rr_cancel : bool; rr_next : next }.   (* sends, ctx cancel, continuation *)
 Record cr := mkCR { cr_out : list M; cr_fault : bool }.                    (* reaction to "input closed" *)
 
-(* the first argument is ctx.Done() as observed at that moment *)
-Record node := mkNode { n_on_msg : bool -> S -> M -> rr; n_on_close : bool -> S -> cr }.
+(* the first argument is ctx.Done() as observed at that moment; n_ok is a (boolean) invariant of the node's
+   own state, established by its initial state, relative to which fault-freedom is stated *)
+Record node := mkNode { n_on_msg : bool -> S -> M -> rr; n_on_close : bool -> S -> cr; n_ok : S -> bool }.
 
 Inductive after := ACont (s : S) | AExit (drain : bool) | AFault.
 Inductive cstate :=
@@ -85,13 +86,30 @@ Definition all_done (l : list cell) : Prop := Forall (fun c => closed_st (c_st c
 (* ---- the contracts ---- *)
 (* K: a consumer never stops receiving before the close without leaving a drainer behind *)
 Definition good_node (n : node) : Prop := forall canc s m, rr_next (n_on_msg n canc s m) <> NStop false.
-(* the body cannot fault *)
+(* the body cannot fault: from a state satisfying the node's invariant every reaction keeps the invariant
+   and is not a fault *)
 Definition nofault_node (n : node) : Prop :=
-  (forall canc s m, rr_next (n_on_msg n canc s m) <> NFault) /\ (forall canc s, cr_fault (n_on_close n canc s) = false).
+  (forall canc s m, n_ok n s = true ->
+     match rr_next (n_on_msg n canc s m) with NCont s' => n_ok n s' = true | NFault => False | NStop _ => True end) /\
+  (forall canc s, n_ok n s = true -> cr_fault (n_on_close n canc s) = false).
+
+(* a cell that is leaving (or has left) without a drainer *)
+Definition exiting_nodrain (st : cstate) : bool :=
+  match st with CDone false => true | CSend _ (AExit false) => true | _ => false end.
+(* the cell is not about to fault and its live state satisfies its node's invariant *)
+Definition cell_ok (c : cell) : Prop :=
+  match c_st c with
+  | CRecv s => n_ok (c_node c) s = true
+  | CSend _ (ACont s) => n_ok (c_node c) s = true
+  | CSend _ AFault => False
+  | _ => True
+  end.
+(* what a stage looks like when the request starts: waiting for input, or writing a header first *)
+Definition fresh_stage (c : cell) : Prop := exiting_nodrain (c_st c) = false /\ cell_ok c.
 
 (* initial configuration: cursor with its rows, the stages waiting for input (some already sending a header),
    the handler receiving *)
-Definition idle_node : node := mkNode (fun _ s _ => mkRR [] false (NCont s)) (fun _ _ => mkCR [] false).
+Definition idle_node : node := mkNode (fun _ s _ => mkRR [] false (NCont s)) (fun _ _ => mkCR [] false) (fun _ => true).
 Definition cursor_cell (rows : list M) : cell := mkCell idle_node (CSend rows (AExit false)).
 Definition init_config (rows : list M) (stages : list cell) : config := mkConfig false false (cursor_cell rows :: stages).
 
@@ -172,12 +190,13 @@ Arguments NCont {S}. Arguments NStop {S}. Arguments NFault {S}.
 Arguments mkRR {S M}. Arguments mkCR {M}. Arguments mkNode {S M}.
 Arguments rr_out {S M}. Arguments rr_cancel {S M}. Arguments rr_next {S M}.
 Arguments cr_out {M}. Arguments cr_fault {M}.
-Arguments n_on_msg {S M}. Arguments n_on_close {S M}.
+Arguments n_on_msg {S M}. Arguments n_on_close {S M}. Arguments n_ok {S M}.
 Arguments ACont {S}. Arguments AExit {S}. Arguments AFault {S}.
 Arguments CRecv {S M}. Arguments CSend {S M}. Arguments CDone {S M}.
 Arguments mkCell {S M}. Arguments c_node {S M}. Arguments c_st {S M}.
 Arguments mkConfig {S M}. Arguments cancelled {S M}. Arguments crashed {S M}. Arguments cells {S M}.
 Arguments lstep {S M}. Arguments step {S M}. Arguments star {S M}. Arguments stuck {S M}.
 Arguments all_done {S M}. Arguments closed_st {S M}. Arguments good_node {S M}. Arguments nofault_node {S M}.
+Arguments exiting_nodrain {S M}. Arguments cell_ok {S M}. Arguments fresh_stage {S M}.
 Arguments cursor_cell {S M}. Arguments idle_node {S M}. Arguments init_config {S M}. Arguments mcell {S M}. Arguments set_st {S M}.
 Arguments sched {S M}. Arguments run {S M}. Arguments after_of {S}.
